@@ -1,1 +1,149 @@
-(* placeholder *)
+(* InventoryP.v (C17) -- the unordered-iteration sites of pilota-build/src the model accounts for.
+
+   Generated/Inventory.v is REGENERATED from the Rust sources on every run (tools/extract_bld.py): every
+   line that names, produces, iterates or parallelises a container whose iteration order depends on a
+   per-process seed (std HashMap/HashSet, AHashMap/AHashSet, DashMap/DashSet, itertools group maps) or a rayon
+   parallel iterator.  This file is written by hand: the same list, each site with the reason its order
+   cannot reach the output.  [inventory_accounted] fails to compile as soon as the two lists differ -- a new
+   site, a removed site, or a site whose statement changed (for instance `.sorted()` dropped from the members
+   chain, or nested messages taken from the hash map again) has to be re-read and re-justified here. *)
+From Coq Require Import String List Bool.
+From PVBld Require Import Generated.Inventory Pipeline Proofs.PipelineP.
+Import ListNotations.
+Open Scope string_scope.
+
+Inductive reason :=
+| RNotIterated                                   (* a `use` line or a type mention: nothing is iterated on this line *)
+| RNotSeeded (why : string)                      (* scanner false positive: the thing iterated is a Vec *)
+| RLookupOnly (why : string)                     (* the container is only queried by key *)
+| ROrderFree (why : string)                      (* the loop body's effects commute and are idempotent *)
+| RSortedAfter (param : string) (lemma : string) (* order = permutation parameter `param`; consumers sort by pairwise distinct keys *)
+| RDisjointKeys (param : string) (lemma : string)(* order = `param`; every iteration writes its own key / directory *)
+| RPermParam (param : string) (lemma : string).  (* the group map whose iteration order is `param` *)
+
+Definition accounted : list (site * reason) :=
+  [
+   (("codegen/mod.rs", "<top>", "use", "use ahash::{AHashMap, AHashSet};"),
+      RNotIterated);
+   (("codegen/mod.rs", "<top>", "use", "use dashmap::{DashMap, mapref::one::RefMut};"),
+      RNotIterated);
+   (("codegen/mod.rs", "write_item", "mention", "dup: &mut AHashMap<FastStr, Vec<DefId>>,"),
+      RNotIterated);
+   (("codegen/mod.rs", "duplicate", "mention", "fn duplicate(&self, dup: &mut AHashMap<FastStr, Vec<DefId>>, def_id: DefId) -> bool {"),
+      RNotIterated);
+   (("codegen/mod.rs", "duplicate", "iter", "for id in dup.iter() {"),
+      RNotSeeded "`dup` is shadowed here by the Vec<DefId> of one map entry (declaration order); the AHashMap itself is reached through entry() only; Builder::dedup is empty in every configuration of the property");
+   (("codegen/mod.rs", "write_items", "producer", "let mods = items.into_group_map_by(|CodegenItem { def_id, .. }| {"),
+      RPermParam "pi_mods" "write_items_closed");
+   (("codegen/mod.rs", "write_items", "mention", "let mut pkgs: DashMap<Arc<[FastStr]>, String> = Default::default();"),
+      RNotIterated);
+   (("codegen/mod.rs", "write_items", "par", "mods.par_iter().for_each_with(this, |this, (p, def_ids)| {"),
+      RDisjointKeys "pi_work" "wi_fold: each body writes the DashMap entry (and, split, the directory) of its own module path");
+   (("codegen/mod.rs", "write_items", "mention", "let mut dup = AHashMap::default();"),
+      RNotIterated);
+   (("codegen/mod.rs", "write_stream", "mention", "pkgs: &mut DashMap<Arc<[FastStr]>, String>,"),
+      RNotIterated);
+   (("codegen/mod.rs", "write_items", "iter", "let keys = pkgs.iter().map(|kv| kv.key().clone()).collect_vec();"),
+      RSortedAfter "pi_keys" "pkg_tree_sorted_inv: the key list only feeds PkgNode::from_pkgs, whose children write_stream sorts by path");
+   (("codegen/mod.rs", "write_split_mod", "mention", "dup: &mut AHashMap<FastStr, Vec<DefId>>,"),
+      RNotIterated);
+   (("codegen/mod.rs", "write_split_mod", "mention", "let mut existing_file_names: AHashSet<String> = AHashSet::new();"),
+      RNotIterated);
+   (("codegen/mod.rs", "generate_unique_name", "mention", "fn generate_unique_name(existing_names: &AHashSet<String>, simple_name: &str) -> String {"),
+      RNotIterated);
+   (("codegen/pkg_tree.rs", "from_pkgs", "producer", ".into_group_map_by(|p| p.first().unwrap());"),
+      RPermParam "pi_tree" "from_pkgs_sorted_inv");
+   (("codegen/pkg_tree.rs", "from_pkgs", "iter", "Arc::from_iter(groups.into_iter().map(|(k, v)| {"),
+      RSortedAfter "pi_tree" "from_pkgs_sorted_inv: write_stream walks nodes.iter().sorted_by_key(path), sibling paths are pairwise distinct");
+   (("codegen/workspace.rs", "group_defs", "producer", "let entry_map = location_map.iter().into_group_map_by(|item| item.1);"),
+      RPermParam "pi_entry" "workspace_closed");
+   (("codegen/workspace.rs", "group_defs", "iter", "let entry_deps = entry_map .iter()"),
+      RDisjointKeys "pi_entry" "entry_deps is an Fx map consumed only by the par_iter below; one crate directory per key");
+   (("codegen/workspace.rs", "group_defs", "iter", "let members = entry_map .keys()"),
+      RSortedAfter "pi_entry" "workspace_closed: dedup is the identity on pairwise distinct crate names, then sorted()");
+   (("codegen/workspace.rs", "group_defs", "par", ".par_iter()"),
+      RDisjointKeys "pi_crates" "workspace_closed: create_crate writes only below <base>/<crate name>, names pairwise distinct");
+   (("middle/context.rs", "<top>", "use", "use std::{collections::HashMap, ops::Deref, path::PathBuf, sync::Arc};"),
+      RNotIterated);
+   (("middle/context.rs", "<top>", "use", "use dashmap::DashMap;"),
+      RNotIterated);
+   (("middle/context.rs", "<top>", "mention", "pub adjusts: Arc<DashMap<DefId, Adjust>>,"),
+      RNotIterated);
+   (("middle/context.rs", "<top>", "mention", "pub entry_map: Arc<HashMap<DefLocation, Vec<(DefId, DefLocation)>>>,"),
+      RNotIterated);
+   (("middle/context.rs", "<top>", "mention", "pub plugin_gen: Arc<DashMap<DefLocation, String>>,"),
+      RNotIterated);
+   (("middle/context.rs", "<top>", "mention", "entry_map: HashMap<DefLocation, Vec<(DefId, DefLocation)>>,"),
+      RNotIterated);
+   (("middle/context.rs", "collect", "producer", ".into_group_map_by(|item| item.1.clone());"),
+      RDisjointKeys "pi_entry" "Context.entry_map is iterated only by plugin/workspace.rs (one plugin_gen entry per key) and otherwise unused");
+   (("middle/context.rs", "build", "temp", ".collect::<HashMap<DefId, usize>>(),"),
+      RLookupOnly "the temporary std HashMap is drained into the Fx map `names`, which is only queried with contains_key (Context::rust_name); keys are pairwise distinct DefIds");
+   (("parser/protobuf/mod.rs", "<top>", "use", "use std::{collections::HashMap, path::PathBuf, sync::Arc};"),
+      RNotIterated);
+   (("parser/protobuf/mod.rs", "<top>", "use", "use ahash::AHashMap;"),
+      RNotIterated);
+   (("parser/protobuf/mod.rs", "lower_ty", "mention", "nested_messages: &AHashMap<FastStr, &DescriptorProto>,"),
+      RNotIterated);
+   (("parser/protobuf/mod.rs", "lower_enum", "iter", "variants: e .iter()"),
+      RNotSeeded "e.value is the Vec of the enum descriptor (declaration order); the scanner matched the closure parameter name");
+   (("parser/protobuf/mod.rs", "lower_message", "mention", ".collect::<AHashMap<FastStr, _>>();"),
+      RNotIterated);
+   (("parser/protobuf/mod.rs", "lower", "mention", "let mut file_map = HashMap::with_capacity(files.len());"),
+      RNotIterated);
+   (("plugin/mod.rs", "<top>", "use", "use std::{collections::HashSet, ops::DerefMut, sync::Arc};"),
+      RNotIterated);
+   (("plugin/mod.rs", "can_derive", "mention", "visiting: &mut HashSet<DefId>,"),
+      RNotIterated);
+   (("plugin/mod.rs", "can_derive", "mention", "delayed: &mut HashSet<DefId>,"),
+      RNotIterated);
+   (("plugin/mod.rs", "can_derive", "iter", "delayed.iter().for_each(|delayed_def_id| {"),
+      ROrderFree "every iteration inserts the constant CanDerive::No under its own key after an order-independent test (is_nested); the resulting map content is the same for all orders, and on_emit touches one adjust per key");
+   (("plugin/mod.rs", "on_item", "mention", "self.can_derive(cx, def_id, &mut HashSet::default(), &mut HashSet::default());"),
+      RNotIterated);
+   (("plugin/workspace.rs", "on_codegen_uint", "iter", "cx.entry_map.iter().for_each(|(k, v)| {"),
+      RDisjointKeys "pi_entry" "one plugin_gen entry per location; _WorkspacePlugin is not installed by Builder::thrift()/protobuf()");
+   (("resolve.rs", "<top>", "use", "use ahash::AHashMap;"),
+      RNotIterated);
+   (("resolve.rs", "<top>", "mention", "pub(crate) value: AHashMap<Symbol, DefId>,"),
+      RNotIterated);
+   (("resolve.rs", "<top>", "mention", "pub(crate) ty: AHashMap<Symbol, DefId>,"),
+      RNotIterated);
+   (("resolve.rs", "<top>", "mention", "pub(crate) mods: AHashMap<Symbol, DefId>,"),
+      RNotIterated);
+   (("tags.rs", "<top>", "use", "collections::HashMap,"),
+      RNotIterated);
+   (("tags.rs", "<top>", "mention", "pub struct TypeMap(HashMap<TypeId, Box<dyn Any + Sync + Send>>);"),
+      RNotIterated)
+  ].
+
+(* the regenerated inventory is exactly the list of sites accounted for *)
+Lemma inventory_accounted : map fst accounted = sites.
+Proof. vm_compute. reflexivity. Qed.
+
+Definition site_kind (s : site) : string := snd (fst s).
+Definition iterating (s : site) : bool :=
+  negb ((site_kind s =? "use") || (site_kind s =? "mention")).
+Definition justified (sr : site * reason) : bool :=
+  match snd sr with RNotIterated => negb (iterating (fst sr)) | _ => true end.
+
+(* every site that iterates, produces a group map or runs in parallel carries a real reason *)
+Lemma inventory_justified : forallb justified accounted = true.
+Proof. vm_compute. reflexivity. Qed.
+
+(* the permutation parameters named by the reasons are exactly the parameters of the model *)
+Definition params_of (r : reason) : list string :=
+  match r with RSortedAfter p _ | RDisjointKeys p _ | RPermParam p _ => [p] | _ => [] end.
+Definition model_params : list string := ["pi_mods"; "pi_work"; "pi_keys"; "pi_tree"; "pi_entry"; "pi_crates"].
+Lemma inventory_params :
+  forallb (fun p => existsb (String.eqb p) model_params) (flat_map (fun sr => params_of (snd sr)) accounted) = true /\
+  forallb (fun p => existsb (String.eqb p) (flat_map (fun sr => params_of (snd sr)) accounted)) model_params = true.
+Proof. split; vm_compute; reflexivity. Qed.
+
+(* the one site of the pinned tree that had no reason: `nested_messages.iter()` in lower_message
+   (parser/protobuf/mod.rs), removed by fix F-17a.  After the fix the AHashMap is only mentioned
+   (collected, then looked up by lower_ty): *)
+Lemma nested_messages_not_iterated :
+  existsb (fun s => (fst (fst (fst s)) =? "parser/protobuf/mod.rs") && iterating s &&
+                    negb (snd (fst (fst s)) =? "lower_enum")) sites = false.
+Proof. vm_compute. reflexivity. Qed.
